@@ -149,10 +149,16 @@ func (ts tokens) Verify(ctx context.Context, isPerm Predicate, v Verifier) ([]*m
 
 		ts[i] = resT
 
+		// a result wraps the token object it was asked about, and bundles
+		// derived earlier (Select) may still hold that object: an Attenuate
+		// through one of them would change the token under this bundle's
+		// verified caveats. give the result its own copy of the token.
 		switch tt := resT.(type) {
 		case *VerifiedMacaroon:
+			ts[i] = &VerifiedMacaroon{tt.UnverifiedMacaroon.copy(), tt.Caveats}
 			verified = append(verified, tt.Caveats)
 		case *FailedMacaroon:
+			ts[i] = &FailedMacaroon{tt.UnverifiedMacaroon.copy(), tt.Err}
 			merr = errors.Join(merr,
 				fmt.Errorf("token %s: %w", tt.UnsafeMac.Nonce.UUID(), tt.Err),
 			)
